@@ -17,7 +17,7 @@ RULE = ('directed corpus + full grid sign x magnitude pool x 22 prefixes (+forei
         'unit systems x return_int, then seeded random magnitudes; QemuImgInfo human texts composed '
         'from size spellings. non-trivial = admissible text with a prefix or a bit unit or a '
         'fractional magnitude, or an inadmissible text; distinct by (text, system, return_int)')
-REQUIRED_CLAUSES = ['concurrent-calls-answer-as-alone', 'under-lazy-translation', 'documented-keyword-call', 'float-result', 'int-result-exact', 'must-raise-ValueError',
+REQUIRED_CLAUSES = ['under-warnings-as-errors', 'concurrent-calls-answer-as-alone', 'under-lazy-translation', 'documented-keyword-call', 'float-result', 'int-result-exact', 'must-raise-ValueError',
                     'qemu-size', 'unknown-system']
 ASSUMPTIONS = ['exact answer computed with fractions.Fraction from the generator components',
                'float results are compared within 4 ulp; integer results exactly, except where the '
@@ -235,7 +235,7 @@ def _evaluate_plain(ctx, case):
 
 
 from vlib import envmodes  # noqa: E402
-evaluate = envmodes.evaluate_with_modes(_evaluate_plain)
+evaluate = envmodes.with_modes(_evaluate_plain, lazy=lambda case: True, warn=lambda case: case.get('kind') == 'stb')
 
 
 def qemu_cases(rng, n):
